@@ -169,8 +169,15 @@ def kernel_vcs(kernel, policy, spec, info, not_decided):
     fv, fg = method(spec, 'value'), method(spec, 'vgrad')
     info.append(fninfo(name + '::value', f'nano::detail::{kernel}<{policy}>::value', path, fv))
     info.append(fninfo(name + '::vgrad', f'nano::detail::{kernel}<{policy}>::vgrad', path, fg))
-    wv, rv = walk_kernel(name + '::value', fv, path)
-    wg, rg = walk_kernel(name + '::vgrad', fg, path, out_param='vgrad')
+    try:
+        wv, rv = walk_kernel(name + '::value', fv, path)
+        wg, rg = walk_kernel(name + '::vgrad', fg, path, out_param='vgrad')
+    except Unsupported as e:
+        if kernel != 'classnll_t':
+            raise
+        # e.g. a special case for one output that addresses element 0: no coordinate-wise reading for a symbolic number of outputs
+        not_decided.append(f'{name}: everything for a symbolic number of outputs ({e}); see the bounded obligations loss_classnll[..][n=1], [n=2]')
+        return [], {'convex': convex, 'smooth': smooth}
     if len(rv) != 1 or len(rg) != 1 or rv[0][0] != 'true' or rg[0][0] != 'true':
         if kernel != 'classnll_t':
             raise Unsupported(f'{name}: several return paths')
@@ -553,6 +560,15 @@ def classnll_one_output_vcs(info, not_decided):
     vcs.append(gen.vc(f'{name}/value >= 0 (one output, target +1 or -1)', [], ('>=', value, '0.0'), about='the loss of a sample is non-negative', source=src))
     kk = sx.kinks(value, O)
     vcs.append(gen.vc(f'{name}/gradient == d value / d output_0', [('not', ('=', a, b)) for a, b in kk], ('=', grad, sx.D(value, O)), source=src))
-    for v in vcs + gen.lemmas:
-        v.bound = 'one output'
-    return vcs + gen.lemmas
+    # two outputs: the loop / index discipline and defined divisions only (the epsilon inside the logarithm makes the calculus inexact)
+    name2 = f'loss_classnll[{pol[:-2]}][n=2]'
+    wv2, rv2 = walk_kernel(name2 + '::value', fv, path, n=2)
+    wg2, rg2 = walk_kernel(name2 + '::vgrad', fg, path, out_param='vgrad', n=2)
+    gen2 = Gen(wv2.decls + [d for d in wg2.decls if d not in wv2.decls], tag=name2)
+    vcs2 = gen2.from_wp(wv2, name2 + '::value', path) + gen2.from_wp(wg2, name2 + '::vgrad', path)
+    vcs2.append(gen2.vc(f'{name2}/vgrad writes both coefficients', [], 'true' if 'vgrad' in getattr(wg2, 'written', ()) and len(rg2) == 1 and
+                        all('|vgrad0@' not in c for c in rg2[0][2]['vgrad'].c) else 'false', source=src))
+    out = vcs + gen.lemmas + vcs2 + gen2.lemmas
+    for v in out:
+        v.bound = 'one / two outputs'
+    return out
